@@ -128,6 +128,31 @@ Proof.
     unfold vscale. cbn [vx vy vz]. f_equal; field; lra.
 Qed.
 
+(* the foot point written in terms of the normal vector alone (the form check_normal evaluates) *)
+Lemma foot_of_normal a e2 lat lon : 0 < a -> 0 <= e2 < 1 ->
+  let n := normal lat lon in
+  let b2 := a * a * (1 - e2) in
+  let D := sqrt (a * a * (vx n * vx n + vy n * vy n) + b2 * (vz n * vz n)) in
+  V3 (a * a * vx n / D) (a * a * vy n / D) (b2 * vz n / D) = geodetic_point a e2 lat lon 0.
+Proof.
+  intros Ha He n b2 D.
+  pose proof (sc lat) as Hlat. pose proof (sc lon) as Hlon.
+  assert (Hs2 : 0 <= sin lat * sin lat <= 1).
+  { pose proof (Rle_0_sqr (sin lat)). pose proof (Rle_0_sqr (cos lat)). unfold Rsqr in *. lra. }
+  set (w := 1 - e2 * (sin lat * sin lat)).
+  assert (Hw : 0 < w) by (unfold w; nra).
+  assert (HW : 0 < sqrt w) by (apply sqrt_lt_R0; exact Hw).
+  assert (HD : D = a * sqrt w).
+  { unfold D, b2, n, normal; cbn [vx vy vz].
+    replace (a * a * (cos lat * cos lon * (cos lat * cos lon) + cos lat * sin lon * (cos lat * sin lon)) + a * a * (1 - e2) * (sin lat * sin lat))
+      with (a * a * ((sin lon * sin lon + cos lon * cos lon) * (cos lat * cos lat) + (1 - e2) * (sin lat * sin lat))) by ring.
+    rewrite Hlon.
+    replace (1 * (cos lat * cos lat) + (1 - e2) * (sin lat * sin lat)) with w by (unfold w; lra).
+    rewrite sqrt_mult_alt by nra. rewrite sqrt_square by lra. reflexivity. }
+  rewrite HD. unfold geodetic_point, b2, n, normal; cbn [vx vy vz]. fold w.
+  f_equal; field; lra.
+Qed.
+
 Lemma east_perp_axis_up lat lon :
   dot (enu_east lat lon) ez = 0 /\ dot (enu_east lat lon) (enu_up lat lon) = 0 /\ norm2 (enu_east lat lon) = 1 /\
   cross ez (enu_up lat lon) = vscale (cos lat) (enu_east lat lon).
